@@ -417,7 +417,7 @@ theorem palKind_cases {ti : Terminfo} (h : (palKind ti).isSome = true) :
           · simp at h
 
 /-- **the colour strings of the class**: a colour terminal of one of the five palette families, or a monochrome one -/
-theorem xl_colcaps {rc : RenderCfg} (hx : XtermLike rc.ti = true) : ColCaps rc ∨ Mono rc := by
+theorem xl_colcaps {rc : RenderCfg} (hx : CapsOk rc.ti = true) : ColCaps rc ∨ Mono rc := by
   have F := tiFacts hx
   rcases F.col with ⟨hk, hop'⟩ | hm
   · left
@@ -708,7 +708,7 @@ call it right after `sgr0`), the colours become what the two colour values denot
 `ColorDefault`/`ColorReset`/invalid and on monochrome terminals, the exact RGB value in direct-colour mode, the palette index for
 palette colours the terminal has, and the FITTED palette colour (`rc.fit`) for everything else; the attributes handed back are
 `effAttr` -/
-theorem xl_sendFgBg_effect {rw} {rc : RenderCfg} (hx : XtermLike rc.ti = true) (hfit : FitOk rc) {t : Term} (g : Good rw t)
+theorem xl_sendFgBg_effect {rw} {rc : RenderCfg} (hx : CapsOk rc.ti = true) (hfit : FitOk rc) {t : Term} (g : Good rw t)
     (h1 : t.pen.fg = .default) (h2 : t.pen.bg = .default) (fg bg attr : Nat) :
     t.feed (Render.sendFgBg rc fg bg attr).1 = withPen t { t.pen with fg := fgSel rc fg bg, bg := bgSel rc fg bg } ∧
       (Render.sendFgBg rc fg bg attr).2 = effAttr rc fg attr := by
@@ -735,7 +735,7 @@ structure UCaps (rc : RenderCfg) : Prop where
   coh : rc.d.underRGB.isEmpty = rc.d.underColor.isEmpty
   cstyles : rc.d.cursorStyles = none ∨ rc.d.cursorStyles = some cursorStylesStd
 
-theorem xl_ucaps {rc : RenderCfg} (hx : XtermLike rc.ti = true) (hd : rc.d = derive rc.ti) : UCaps rc := by
+theorem xl_ucaps {rc : RenderCfg} (hx : CapsOk rc.ti = true) (hd : rc.d = derive rc.ti) : UCaps rc := by
   have F := tiFacts hx
   have D := dFacts hx hd
   exact ⟨F.underline, D.du, D.cu, D.dou, D.dau, D.uc, D.urgb, D.ufg, D.coh, D.cstyles⟩
@@ -870,7 +870,7 @@ theorem urlTail_effect {rw} {rc : RenderCfg} (D : DFacts rc.d) {t : Term} (g : G
 sendFgBg, bold, underline colour / `smul` / underline style, reverse, blink, dim, italic, strike-through, hyperlink off —
 for EVERY style without hyperlink, on every terminal of the class: the emulator's pen becomes exactly `penOf rc s`, pen and
 hyperlink state are known, the parser is back in the ground state and nothing else has changed. -/
-theorem xl_setPen_effect {rw} {rc : RenderCfg} (hx : XtermLike rc.ti = true) (hd : rc.d = derive rc.ti) (hfit : FitOk rc)
+theorem xl_setPen_effect {rw} {rc : RenderCfg} (hx : CapsOk rc.ti = true) (hd : rc.d = derive rc.ti) (hfit : FitOk rc)
     {t : Term} (g : Good rw t) (q : Quiet rc t) (s : Style) (hurl : s.url = "") :
     t.feed (Render.render rc (.setPen s)) = { t with pen := penOf rc s, penKnown := true, linkKnown := true } := by
   have F := tiFacts hx
@@ -1032,7 +1032,7 @@ theorem cursorStylesStd_get (cs : Nat) :
 the five forms of the class (nothing on a terminal without cursor-visibility strings, where the cursor is always visible), then DECSCUSR for the cursor styles 0…6 when the screen has cursor-style strings (styles ≥ 7
 do not exist in tcell; nothing is written for them).  Only `modes` changes: the cursor is visible, the shape is the
 requested one (or unchanged when no style string is written); the fields the draw invariant depends on are untouched. -/
-theorem xl_show_effect {rw} {rc : RenderCfg} (hx : XtermLike rc.ti = true) (hd : rc.d = derive rc.ti) {t : Term} (g : Good rw t)
+theorem xl_show_effect {rw} {rc : RenderCfg} (hx : CapsOk rc.ti = true) (hd : rc.d = derive rc.ti) {t : Term} (g : Good rw t)
     (q : Quiet rc t) (cs cc : Nat) (hv : Color.valid cc = false) (hr : cc ≠ colorReset) :
     ∃ m', t.feed (Render.render rc (.showCursor cs cc)) = { t with modes := m' } ∧ ModesOk t.modes m' ∧
       m'.cursorVisible = true ∧ (cs < 7 → rc.d.cursorStyles ≠ none → m'.cursorShape = cs) ∧
@@ -1106,7 +1106,7 @@ theorem clearForm_effect {rw} {t : Term} (g : Good rw t) (s : Bytes) (hs : s ∈
 /-- **`CapsFx.clear` for the class** — clearScreen (tscreen.go:1027): `sgr0`, hyperlink off, the colours of the style,
 `clear`.  Every cell of the emulator grid becomes a known blank carrying the style's background (bce), the cursor is at
 home, the pen is the style's colours and known; modes (cursor visibility and shape included) and size are unchanged. -/
-theorem xl_clear_effect {rw} {rc : RenderCfg} (hx : XtermLike rc.ti = true) (hd : rc.d = derive rc.ti) (hfit : FitOk rc)
+theorem xl_clear_effect {rw} {rc : RenderCfg} (hx : CapsOk rc.ti = true) (hd : rc.d = derive rc.ti) (hfit : FitOk rc)
     {t : Term} (g : Good rw t) (q : Quiet rc t) (s : Style) :
     ∃ G : Grid, t.feed (Render.render rc (.clear s)) =
         { t with grid := G, cx := 0, cy := 0, pendingWrap := false, cursorKnown := true, penKnown := true, linkKnown := true,
@@ -1140,7 +1140,7 @@ theorem xl_clear_effect {rw} {rc : RenderCfg} (hx : XtermLike rc.ti = true) (hd 
 /-- **the hypothesis `CfgB.fx` holds for every terminal description of the class**, whatever the draw configuration (as long as
 it knows whether there is a hide-cursor string), the truecolor switch and the colour-fitting function (as long as it returns
 palette entries where there is a palette, `FitOk`) -/
-theorem xl_capsFx (dc : DrawCfg) {rc : RenderCfg} (hx : XtermLike rc.ti = true) (hd : rc.d = derive rc.ti) (hfit : FitOk rc)
+theorem xl_capsFx (dc : DrawCfg) {rc : RenderCfg} (hx : CapsOk rc.ti = true) (hd : rc.d = derive rc.ti) (hfit : FitOk rc)
     (hh : dc.hasHide = !rc.ti.hideCursor.isEmpty) : CapsFx dc rc :=
   { goto := fun _ x y g h1 h2 => xl_goto_effect hx g x y h1 h2
     pen := fun _ s g q hs => xl_setPen_effect hx hd hfit g q s hs
